@@ -50,6 +50,8 @@ def configs(tier):
     out.append(('labelled', bmm.cfg_make(size=(K,), levy='space-time', cache_size=2, t0=-1., t1=1.)))
     out.append(('real', bmm.cfg_make(size=(2, 3), levy='davie', cache_size=2, dt=0.5, t0=1., t1=3.)))
     out.append(('real', bmm.cfg_make(wrapper='tree', size=(2, 3), tol=0.01, t0=-1., t1=1.)))
+    for levy in ['space-time', 'foster']:
+        out.append(('real', bmm.cfg_make(size=(2, 3), levy=levy, cache_size=2, dtype='float32')))
     return out
 
 
@@ -91,7 +93,9 @@ def run(tier, seed):
         pe = mode == 'real' and cfg['via'] == 'd' and (cfg['wrapper'] != 'interval' or cfg['cache_size'] == 2
                                                       or cfg['t0'] != 0.)
         units += ex.bfs_units(cfg, entropy, bmm.grid_ops(grid, point_eval=pe), 2, mode=mode, K=K,
-                              given=given_tensors(cfg), opts=dict(grid=grid, points=(mode == 'real')), **vis)
+                              given=given_tensors(cfg),
+                              opts=dict(grid=grid, points=(mode == 'real'),
+                                        rtol=1e-12 if cfg['dtype'] == 'float64' else 2e-5), **vis)
     for mode, cfg in core_configs():
         if tier == 'quick':
             grid = bmm.G4 if cfg['tol'] == 0 else bmm.G5
